@@ -580,3 +580,32 @@ gcsim("C09", "Garbage is fully reclaimable (no space leak across GC cycles)",
       note="Objects of never-collected spaces (Immortal; NonMoving under immortal_as_nonmoving) are not part of the garbage by definition and are not allocated here.",
       design_ref="2/C09", shards=c09_shards,
       floors={"quick": {"cycles": 800, "growth_checks": 20, "objects_allocated": 2000000}})
+
+
+def c10_shards(tier, seed):
+    rnd = _rng(seed, 10)
+    shards = []
+    rounds = 3 if tier == "quick" else 25
+    table = [("A", COLLECTING), ("B", ["Compressor", "StickyImmix", "MarkSweep"]), ("C", ["SemiSpace", "MarkCompact"]), ("D", ["Immix", "MarkSweep"])]
+    for variant, plans in table:
+        for plan in plans:
+            if tier == "quick" and variant in "BCD" and rnd.random() < 0.4:
+                continue
+            n = rounds if plan != "PageProtect" else max(1, rounds // 3)
+            shards.append(gc_shard(variant, plan, rnd, n, mutators=rnd.choice([1, 1, 2]), heap=rnd.choice([12, 16, 24]), stress=0, scenario="oom"))
+    return shards
+
+
+gcsim("C10", "Out-of-memory and allocation-option contract",
+      rule="gcsim scenario oom for every collecting plan (variants A-D), heaps of 12-24 MiB, 1-2 mutators: rounds of {(A) allocate reachable objects with default options until a request fails, (B) against the full heap issue all 8 AllocationOptions "
+           "combinations x {Default 64 B / 1 KiB / the non-LOS limit, LOS 128 KiB / 1 MiB, NonMoving 256 B} (objects initialised, half of the successful ones retained, so overcommit grows past the heap size) and x {heap+8 MiB, 4 x heap, 2^40, 2^46, usize::MAX/2} "
+           "with LOS and Immortal semantics, (C) drop everything and collect}; the binding records per request: result, out_of_memory callbacks, block_for_gc calls, completed-GC counter at entry / at the callback / at return. "
+           "E: callback with allow_oom_call=false; >1 callback per request; non-null after a callback; callback with no GC completed since entry (request smaller than the heap); larger-than-heap request succeeding or triggering a GC; "
+           "block_for_gc with at_safepoint=false; a successful overcommit request that blocked; null with at_safepoint && allow_oom_call but no callback; a request that never returns (watchdog + CPU: reported as stall). "
+           "The same predicates are evaluated on every default-option allocation of every other gcsim check. case = one request; distinct = (options, semantics, outcome, size class)",
+      technique="history monitor at the binding boundary: per-request call/return record joined with the out_of_memory / block_for_gc callbacks and the GC counter",
+      level_text="Every request's observable history is judged by direct predicates; heaps genuinely fill, so the emergency-collection and OOM paths of every allocator run.",
+      note="Requests within 1 MiB of the heap size are not judged for 'immediate' vs 'after a collection'. NoGC cannot collect and is excluded. Sizes above usize::MAX/2 are not used (size arithmetic of the caller's own alignment padding overflows).",
+      design_ref="2/C10", shards=c10_shards,
+      floors={"quick": {"requests_with_options": 3000, "oom_after_collection": 80, "oom_immediate_larger_than_heap": 800, "null_not_at_safepoint": 500, "null_oom_call_suppressed": 400,
+                        "overcommit_success_beyond_heap_size": 100, "requests_that_blocked_for_gc": 150, "heap_fill_rounds": 30}})
